@@ -239,7 +239,9 @@ def hint_src(h: dict) -> str:
     if k == "annbad":  # dltype annotation on an unsupported base type
         return f"Annotated[int, dltype.{h['cls']}[{h['shape']!r}]]"
     if k == "opt":
-        return f"typing.Optional[{hint_src(h['of'])}]"
+        inner = hint_src(h["of"])
+        return {"T|None": f"{inner} | None", "None|T": f"None | {inner}", "Union[None,T]": f"typing.Union[None, {inner}]",
+                "Union[T,None]": f"typing.Union[{inner}, None]"}.get(h.get("spell"), f"typing.Optional[{inner}]")
     if k == "union":
         return "typing.Union[" + ", ".join(hint_src(x) for x in h["alts"]) + (", None" if h.get("none") else "") + "]"
     if k == "tuple":
